@@ -17,6 +17,9 @@ VERIF = os.path.dirname(os.path.abspath(__file__))
 REPO = os.environ.get("VC_REPO", "/repo")
 SRC = os.path.join(REPO, "src")
 WORK = os.environ.get("VC_WORK", os.path.join(VERIF, ".work"))
+# evidence describes /repo itself: a run against another tree (VC_REPO: scratch worktree with a seeded change) keeps its
+# evidence next to its work directory and never overwrites /verif/evidence
+EVIDENCE_DIR = os.path.join(VERIF, "evidence") if "VC_REPO" not in os.environ else os.path.join(WORK, "evidence")
 GUARD = "LIBSCIENTIFIC_VERIF"
 NCPU = int(os.environ.get("VC_NCPU", str(os.cpu_count() or 4)))
 
@@ -559,7 +562,7 @@ def check_property(prop, tier, only=None, verbose=False):
         jobs = [j for j in jobs if any(j.name == o or j.name.split("@")[0] == o for o in only)]
     ensure_cfg()
     os.makedirs(os.path.join(VERIF, "replay"), exist_ok=True)
-    os.makedirs(os.path.join(VERIF, "evidence"), exist_ok=True)
+    os.makedirs(EVIDENCE_DIR, exist_ok=True)
     known = load_known()
     results = {}
     with ThreadPoolExecutor(max_workers=NCPU) as ex:
@@ -712,7 +715,7 @@ def write_evidence(prop, tier, mod, jobs, results, violations, known_hits, undec
         cov.update(mod.extra_coverage(results))
     ev = dict(property_id=prop, tier=tier, seed=int(os.environ.get("VERIF_SEED", "0") or 0), level=level, coverage=cov,
               assumptions=meta.get("assumptions", []) + COMMON_ASSUMPTIONS, wall_s=round(wall, 1), violations=len(violations))
-    with open(os.path.join(VERIF, "evidence", prop + ".json"), "w") as f:
+    with open(os.path.join(EVIDENCE_DIR, prop + ".json"), "w") as f:
         json.dump(ev, f, indent=1)
 
 
